@@ -33,6 +33,8 @@ pub struct Violation {
     pub class: String,
     pub event: usize,
     pub detail: String,
+    /// check-specific payload needed to re-judge the violation from a replay file
+    pub extra: serde_json::Value,
 }
 
 #[derive(Clone, Debug, PartialEq)]
@@ -48,6 +50,14 @@ impl Obs {
     pub fn vals(&self) -> Vec<f64> {
         self.bits.iter().map(|b| f64::from_bits(*b)).collect()
     }
+}
+
+#[derive(Clone, Debug, PartialEq)]
+pub struct ObsRec {
+    pub event: usize,
+    pub kind: &'static str,
+    pub slot: usize,
+    pub obs: Option<Obs>,
 }
 
 pub struct Held {
@@ -125,7 +135,7 @@ pub struct Sim {
     pub event_index: usize,
     pub dead: bool,
     /// per-event observation log for relational oracles: (event index, label, observation)
-    pub obs_log: Vec<(usize, String, Option<Obs>)>,
+    pub obs_log: Vec<ObsRec>,
     pub digest: crate::rng::Fnv,
     pub faults: BTreeMap<&'static str, u64>,
     pub c18_nontrivial: u64,
@@ -197,7 +207,7 @@ impl Sim {
 
     fn viol(&mut self, prop: &'static str, monitor: &'static str, class: String, detail: String) {
         if self.cfg.monitors {
-            self.violations.push(Violation { prop, monitor, class, event: self.event_index, detail });
+            self.violations.push(Violation { prop, monitor, class, event: self.event_index, detail, extra: serde_json::Value::Null });
         }
     }
 
@@ -400,7 +410,8 @@ impl Sim {
                 Some(op) => format!("flag after {} on {}", what, op.name()),
                 None => format!("flag after {} on leaf", what),
             };
-            self.viol("C09", "handle_flag", class, format!("slot s{} (node {}) reads tracked={} but must be {}", s, n, f, want));
+            let prop = if what == "update" { "C13" } else { "C09" };
+            self.viol(prop, "handle_flag", class, format!("slot s{} (node {}) reads tracked={} but must be {}", s, n, f, want));
         }
     }
 
@@ -529,7 +540,7 @@ impl Sim {
                     self.fault("F2_read_through_clone");
                 }
                 let node = self.node_of(*slot).unwrap();
-                self.obs_log.push((self.event_index, format!("gradread s{}", slot), g.as_ref().map(Obs::of)));
+                self.obs_log.push(ObsRec { event: self.event_index, kind: "gradread", slot: *slot, obs: g.as_ref().map(Obs::of) });
                 if let Some(g) = g {
                     // C03: shape of a stored gradient
                     if g.dimensions() != &self.g.nodes[node].dims[..] {
@@ -664,6 +675,7 @@ impl Sim {
             Ev::Update { slots, lr } => self.do_update(slots, *lr),
             Ev::Retire { slot } => self.do_retire(*slot),
             Ev::Refuse(r) => self.do_refuse(r),
+            Ev::Nop => StepOut::Done,
             Ev::DropHeld => {
                 self.held.clear();
                 self.post_plain("dropheld");
@@ -803,7 +815,7 @@ impl Sim {
         if args.contains(&dst) {
             self.fault("F3_rebind");
         }
-        self.obs_log.push((self.event_index, format!("build s{}", dst), Some(Obs::of(&arr))));
+        self.obs_log.push(ObsRec { event: self.event_index, kind: "build", slot: dst, obs: Some(Obs::of(&arr)) });
         self.put(dst, arr, HInfo { node, tracked: has_graph, keep: has_graph, explicit: Explicit::No });
         self.post_plain("build");
         StepOut::Done
@@ -873,6 +885,15 @@ impl Sim {
             self.check_grads_unchanged(&before, &BTreeSet::new(), "pre-pass");
         }
 
+        {
+            let slots = self.sh.slots.borrow();
+            for (s, hi) in self.info.iter().enumerate() {
+                if hi.is_some() {
+                    let g = slots[s].as_ref().unwrap().gradient().as_ref().map(Obs::of);
+                    self.obs_log.push(ObsRec { event: self.event_index, kind: "pass_before", slot: s, obs: g });
+                }
+            }
+        }
         let log_start = self.sh.log.borrow().len();
         let seed_arr: Option<Array> = match seed {
             Seed::None => None,
@@ -1042,7 +1063,7 @@ impl Sim {
             for (s, hi) in self.info.iter().enumerate() {
                 if hi.is_some() {
                     let g = slots[s].as_ref().unwrap().gradient().as_ref().map(Obs::of);
-                    self.obs_log.push((self.event_index, format!("pass grad s{}", s), g));
+                    self.obs_log.push(ObsRec { event: self.event_index, kind: "pass_after", slot: s, obs: g });
                 }
             }
         }
@@ -1338,7 +1359,7 @@ impl Sim {
             let v: Vec<Float> = Vec::from(arr);
             v.len()
         }));
-        self.obs_log.push((self.event_index, format!("retire s{} ok={}", slot, res.is_ok()), None));
+        self.obs_log.push(ObsRec { event: self.event_index, kind: if res.is_ok() { "retire_ok" } else { "retire_panic" }, slot, obs: None });
         let class = format!("{}{}", self.g.nodes[l].origin, if was_passed { " differentiated" } else { "" });
         if self.g.nodes[l].has_graph {
             // the property speaks about arrays from which results were derived; a result with its own
@@ -1443,10 +1464,11 @@ impl Sim {
     /// Final digest of the run (events, observations, verdicts; no addresses, no times).
     pub fn finish_digest(&mut self) -> u64 {
         let mut d = self.digest;
-        for (i, l, o) in &self.obs_log {
-            d.u64(*i as u64);
-            d.str(l);
-            if let Some(o) = o {
+        for r in &self.obs_log {
+            d.u64(r.event as u64);
+            d.str(r.kind);
+            d.u64(r.slot as u64);
+            if let Some(o) = &r.obs {
                 d.usizes(&o.dims);
                 for b in &o.bits {
                     d.u64(*b);
